@@ -683,3 +683,49 @@ pub fn encode_fixed_global(coded: &mut [Chan], chain: &[Transform], wp: &WpParam
     tc.code.write_stream(&mut w, &ops, true);
     w
 }
+
+/// One self-contained Modular sub-bitstream (own header, own local tree and
+/// code): ModularHeader(use_global_tree = 0, wp, transforms) + MA tree + symbol
+/// code + channel data for `stream_idx`.  Used for the Modular images embedded
+/// in VarDCT frames (LF coefficients, HF metadata, RAW quant tables) and for
+/// any group stream that does not share the global tree.  `chans` are the
+/// channels *before* this stream's own transforms; generated transforms are
+/// applied when `o.allow_transforms`.  Returns the bits and the class labels.
+pub fn encode_local_substream(src: &mut Src, chans: &[Chan], stream_idx: u32, o: &ModularOpts) -> (BitWriter, Vec<String>) {
+    let range = Range { limit: o.range_limit };
+    for attempt in 0..4 {
+        let mut classes = vec![];
+        let wp = gen_wp_params(src);
+        let mut coded: Vec<Chan> = chans.to_vec();
+        let mut nb_meta = 0usize;
+        let mut o2 = o.clone();
+        if attempt >= 2 {
+            o2.allow_transforms = false;
+        }
+        let chain = gen_transform_chain(src, &mut coded, &mut nb_meta, &wp, &o2, 2, &mut classes);
+        let tctx = TreeGenCtx {
+            max_channels: coded.len().max(1),
+            stream_indices: vec![stream_idx],
+            max_w: coded.iter().map(|c| c.w).max().unwrap_or(1),
+            max_h: coded.iter().map(|c| c.h).max().unwrap_or(1),
+            amplitude: o.amplitude.max(1),
+            max_prev: coded.len().min(3),
+            allow_multiplier: false,
+            max_nodes: 41,
+        };
+        let (tree, label) = if attempt >= 3 { (Tree::single(5), "single-leaf-gradient") } else { gen_tree(src, &tctx) };
+        let Ok(tokens) = tokenize(&mut coded, &tree, &wp, stream_idx, false, range) else { continue };
+        let dist_multiplier = coded.iter().map(|c| c.w).max().unwrap_or(0) as u32;
+        let lz = if o.allow_lz77 && src.chance(50) { Some(Lz77Params::gen_min_length(src)) } else { None };
+        let (ops, _) = make_ops(&tokens, lz, dist_multiplier, src, false);
+        let code = EntropyCode::generate(src, tree.num_leaves as usize, &[&ops], &CodeOpts { lz77_min_length: lz, ..Default::default() });
+        let mut w = BitWriter::new();
+        write_modular_header(&mut w, false, &wp, &chain, src);
+        let tc = TreeCode { tree, code };
+        write_tree_and_code(&mut w, &tc, src);
+        tc.code.write_stream(&mut w, &ops, true);
+        classes.push(format!("tree:{label}"));
+        return (w, classes);
+    }
+    panic!("sub-stream could not be encoded");
+}
